@@ -262,7 +262,8 @@ def invgamma_prior(a, scale, loc=0.0, step=1e-2) -> Callable:
         # Pull out `scale` to interpolate less
         s2i = lambda x: invgamma.ppf(norm._cdf(x), a=a)
     elif jnp.isscalar(scale):
-        s2i = lambda x: invgamma.ppf(norm._cdf(x), a=a, loc=loc, scale=scale)
+        # Tabulate the unshifted quantiles: their logarithm exists for any `loc`
+        s2i = lambda x: invgamma.ppf(norm._cdf(x), a=a, scale=scale)
     else:
         raise TypeError("`scale` may only be array-like for `loc == 0.`")
 
@@ -276,7 +277,7 @@ def invgamma_prior(a, scale, loc=0.0, step=1e-2) -> Callable:
         # interpolate for shape `a` and `loc`
         if loc == 0.0:
             return standard_to_invgamma_interp(x) * scale
-        return standard_to_invgamma_interp(x)
+        return standard_to_invgamma_interp(x) + loc
 
     return standard_to_invgamma
 
@@ -286,8 +287,9 @@ def invgamma_invprior(a, scale, loc=0.0, step=1e-2) -> Callable:
     from scipy.stats import invgamma, norm
 
     xmin, xmax = -8.2, 8.2  # (1. - norm.cdf(8.2)) * 2 < 1e-15
-    _, invgamma_to_standard = interpolator(
-        lambda x: invgamma.ppf(norm._cdf(x), a=a, loc=loc, scale=scale),
+    # Tabulate the unshifted quantiles: their logarithm exists for any `loc`
+    _, unshifted_to_standard = interpolator(
+        lambda x: invgamma.ppf(norm._cdf(x), a=a, scale=scale),
         xmin,
         xmax,
         step=step,
@@ -295,4 +297,8 @@ def invgamma_invprior(a, scale, loc=0.0, step=1e-2) -> Callable:
         inv_table_func=jnp.exp,
         return_inverse=True,
     )
+
+    def invgamma_to_standard(y):
+        return unshifted_to_standard(y - loc)
+
     return invgamma_to_standard
